@@ -129,13 +129,26 @@ func (m *ValueMap) Load(key string) (value *VMValue, ok bool) {
 }
 
 func (m *ValueMap) Length() int {
+	// Deleted keys stay in the maps as nil/expunged entries, so count live entries only.
+	count := func(mm map[string]*entryValueMap) int {
+		n := 0
+		for _, e := range mm {
+			if _, ok := e.load(); ok {
+				n++
+			}
+		}
+		return n
+	}
 	read, _ := m.read.Load().(readOnlyValueMap)
 	if read.amended {
 		m.mu.Lock()
 		defer m.mu.Unlock()
-		return len(m.dirty)
+		read, _ = m.read.Load().(readOnlyValueMap)
+		if read.amended {
+			return count(m.dirty)
+		}
 	}
-	return len(read.m)
+	return count(read.m)
 }
 
 func (m *ValueMap) Clear() {
